@@ -739,7 +739,14 @@ class Translator:
                     self.block(rest, env2, cname, end, brk))
             if isinstance(s, ast.If) and not s.orelse and s.body and is_log_call(s.body[-1]) and \
                     all(isinstance(b, ast.Assign) and len(b.targets) == 1 and isinstance(b.targets[0], ast.Name) for b in s.body[:-1]):
-                return self.block(rest, env, cname, end, brk)        # a branch that only composes and writes a log message
+                # a branch that only composes and writes a log message.  At level `error` it is the *report* of the pass: whether
+                # it is written is part of the result (its text is not)
+                if s.body[-1].value.func.attr == 'error':
+                    et, ef = dict(env), dict(env)
+                    et['__rep'], ef['__rep'] = 'cTrue', 'cFalse'
+                    return '(iteM %s\n      %s\n      %s)' % (self.expr(s.test, env, cname), self.block(rest, et, cname, end, brk),
+                                                             self.block(rest, ef, cname, end, brk))
+                return self.block(rest, env, cname, end, brk)
         if getattr(self, 'effect_mode', None) == 'sql':
             def sess_call(c, name):
                 return isinstance(c, ast.Call) and isinstance(c.func, ast.Attribute) and c.func.attr == name and \
@@ -1665,9 +1672,9 @@ def translate_mongo_mig(repo):
         env = {p: '(pure p_%s)' % p for p in params}
         env['__w'] = '(pure p_w)'
         # the function returns None; what it reports (the documents it could not convert) is the value of `failed_policies` when it ends
-        body = tr.block(f.body, env, 'MongoMigration', end=lambda e: '(pairM %s %s)' % (e.get('failed_policies', 'cNone'), e['__w']))
+        body = tr.block(f.body, env, 'MongoMigration', end=lambda e: '(pairM %s (pairM %s %s))' % (e.get('failed_policies', 'cNone'), e.get('__rep', 'cFalse'), e['__w']))
         out.append('/-- `vakt.storage.mongo.MongoMigration._each_doc` (the collection is the world; the result is the list of documents '
-                   'reported as failed, with the world) -/')
+                   'that failed, whether the error-level report was written, and the world) -/')
         out.append('def each_doc_MongoMigration (%s p_w : V) : M :=\n    %s\n' % (' '.join('p_%s' % p for p in params), body))
         done.append('_each_doc')
     except Untranslatable as e:
